@@ -67,7 +67,7 @@ CHECKS = {
         "pkg": "c05",
         "level": "exploration",
         "tests": [
-            T("TestC05History", (400, 4), (5000, 16)),
+            T("TestC05History", (400, 4), (1250, 64)),  # <= ~1500 cases per process: the datastore of a process keeps every repo it made (about 1.2 MB each)
             T("TestC05BulkDeleteRange", (25, 4), (300, 16)),
         ],
         "required_classes": ["hist/delrange", "hist/merge", "hist/binary-values", "hist/query-lo>hi", "bulk/span-multiple-of-batch"],
@@ -142,7 +142,7 @@ CHECKS = {
         "level": "exploration",
         "tools": ["verif-child"],
         "tests": [
-            T("TestC03Restart", (6, 8), (150, 16), ),
+            T("TestC03Restart", (6, 8), (40, 16), ),
         ],
         "required_classes": ["op/restart-clean", "op/restart-abrupt", "op/lmmerge", "op/lmcleave", "op/lmsplitsv", "op/njpost", "op/annpost"],
         "rule": "rapid-generated histories (<=~35 ops) against a real server process (verif-child = the DoServe initialisation on a Badger store + file log + JSON mutation log): keyvalue writes, commit/newversion/branch/merge, notes and logs, labelmap ingest/mutate/merge/cleave/split-supervoxel/renumber, annotation posts/deletes/moves with synced labelmap and labelsz, neuronjson posts (partial, replace, null) and deletes over mixed-digit body ids, roi posts, instance creation/deletion, with restart(clean = server.Shutdown) and restart(abrupt = SIGKILL while idle) pseudo-ops at generated positions (every history ends restart, 1-4 ops, restart). At each restart: deep settle, full observable snapshot (repos/info minus the mutation-id counters, DAG, notes, logs, commit flags, branch resolution, instance settings and syncs, every read endpoint of every instance at every version), snapshot again (to drop observables unstable without a restart), restart, snapshot, compare. Non-trivial: >=1 op whose effect lives in rebuilt state before a restart and >=2 restarts. Distinct = hash of the op list.",
